@@ -115,4 +115,12 @@ PROPS = {
         "explanation": "bounded model checking of the real blocking Framed::write with CBMC: frames of 4 bytes, two packets per run, every acceptance count 1..=4 of the transport; request ids symbolic",
         "uncovered": ["the tokio Framed::write (write_all_buf) and transports that return Pending: async code is outside Kani and Verus", "UDP / WebSocket adaptors", "frames longer than 4 bytes and sequences longer than 2 packets (bound)"],
     },
+    "C11": {
+        "level": "model_checking",
+        "trusted_base": [A_KANI],
+        "assumptions": ["text content is ASCII (encoded length == character count); multi-byte / multi-codepage text reaches the width logic only through the length of the encoded bytes (by inspection of binrw_write_codepage_string: `res` is not read again before the write) - an assumption, not a proof"],
+        "min_obligations": {"quick": 25, "thorough": 40},
+        "explanation": "bounded model checking with CBMC of the real text-field writer for every field width used by the protocol (6 8 16 24 32 64 96 128 240), text lengths enumerated concretely: all of 0..=2N+1 for N <= 32, the boundary set {0..5} u {N-5..N+5} u {2N,2N+1} for larger widths, both modes (fixed / aligned to 4), raw mode for the ISI password width; NUL stripping for all slices up to 8 bytes",
+        "uncovered": ["multi-byte and multi-codepage text (codepage conversion is out of reach, K13)", "the readers binrw_parse_codepage_string / _until_eof beyond strip_trailing_nul (text decoding)", "Mso's hand-written writer"],
+    },
 }
